@@ -70,14 +70,30 @@ def get_region_case(vd, east, north, kind, rnd=None):
                 {"region": [float(x) for x in reg], "all_inside": ins}, term, repro, kind)
 
 
+_padform = [0]
+
+
 def pad_case(vd, region, pad, kind):
-    out = vd.pad_region(region, pad)
+    # the region is handed over as a tuple / list / float64 ndarray / int ndarray in rotation, the SAME object is
+    # used for a second identical call: the answer is the pad away from the values given, both times
+    _padform[0] += 1
+    f = _padform[0] % 4
+    vals = [float(v) for v in region]
+    if f == 3 and not all(v == int(v) for v in vals):
+        f = 2
+    robj = [tuple(vals), list(vals), np.array(vals, dtype="float64"), np.array([int(v) for v in vals])][f]
+    out = vd.pad_region(robj, pad)
+    out2 = vd.pad_region(robj, pad)
+    if [float(x) for x in out2] != [float(x) for x in out]:
+        out = out2      # the second answer is the one judged (it must still be the pad away from the values given)
     neg = -pad if np.isscalar(pad) else tuple(-p for p in pad)
-    back = vd.pad_region(out, neg)
+    back = vd.pad_region(np.array([float(x) for x in out]) if f == 2 else out, neg)
     pn, pe = (pad, pad) if np.isscalar(pad) else pad
     term = "c13_pad %s %s %s %s %s" % (dl(region), cD(pn), cD(pe), dl(out), dl(back))
-    repro = "import verde; o=verde.pad_region(%r, %r); print(o, verde.pad_region(o, %r))" % (list(region), pad, neg)
-    return Case({"fn": "pad_region", "region": list(region), "pad": pad}, {"padded": [float(x) for x in out], "unpadded": [float(x) for x in back]},
+    repro = ("import verde, numpy as np; r=%s; verde.pad_region(r, %r); o=verde.pad_region(r, %r); print(o, verde.pad_region(o, %r))"
+             % (["tuple(%r)", "list(%r)", "np.array(%r, dtype='float64')", "np.array(%r, dtype=int)"][f] % (vals,), pad, pad, neg))
+    return Case({"fn": "pad_region", "region": list(region), "region_given_as": ["tuple", "list", "float64 ndarray", "int ndarray"][f],
+                 "called_twice_with_same_object": True, "pad": pad}, {"padded": [float(x) for x in out], "unpadded": [float(x) for x in back]},
                 term, repro, kind)
 
 
